@@ -139,17 +139,22 @@ def snapshot(tf, w, lazy):
         # every channel's chunk stream, advanced round-robin (so that suspended generators sit in segments of different
         # byte order) with a direct read of some other channel between two advances
         chans = [c for g in tf.groups() for c in g.channels()]
-        live = [[c, c.data_chunks(), []] for c in chans]
+        live = [[c, c.data_chunks(), [], []] for c in chans]
         streams = {}
         step = 0
         while live:
             for item in list(live):
-                c, gen_, parts = item
+                c, gen_, parts, again = item
                 try:
-                    parts.append(ops.norm(next(gen_)[:]))
+                    ck = next(gen_)
+                    first = ck[:]
+                    parts.append(ops.norm(first))
+                    again.append(ops.norm(ck[:]))        # looking at a chunk twice shows the same data ...
+                    again.append(ops.norm(first))        # ... and does not change what the first look returned
                 except StopIteration:
                     live.remove(item)
                     streams[c.path] = ops.concat_norm(parts) or ('arr', '?', 0, '')
+                    streams[c.path + ' (every chunk looked at twice)'] = ops.concat_norm(again) or ('arr', '?', 0, '')
                 except Exception as exc:
                     live.remove(item)
                     streams[c.path] = ('exc', type(exc).__name__)
